@@ -37,14 +37,17 @@ PRIMITIVES = {
     STORE + '::Clear': 'stored values',
     'ccl::semantic::RSCore::SetExpressionFor': 'definition of the target',
     'ccl::semantic::RSCore::Erase': 'existence of the target',
+    # a name that appears, disappears or moves changes the typing of every constituent that mentions it by that name
+    'ccl::semantic::RSCore::Emplace': 'a new name (constituents already mentioning it become typed)',
+    'ccl::semantic::RSCore::InsertCopy': 'new names (constituents already mentioning them become typed)',
+    'ccl::semantic::RSCore::SetAliasFor': 'the name of the target (mentions of the old / new name lose / gain their meaning)',
+    'ccl::semantic::RSCore::ResetAliases': 'all names',
 }
 
 DESTROYERS = ('ccl::semantic::RSCore::Erase',)
 
 # public mutators that reach a primitive and are exempt from r1, one reason each (confirmed by reading)
 EXEMPT_R1 = {
-    MODEL + '::Emplace': 'creates a new constituent; only the new slot is initialised (AfterInsert); nothing calculated can depend on it',
-    MODEL + '::InsertCopy': 'creates new constituents; only the new slots are initialised (AfterInsert)',
     MODEL + '::Load': 'deserialisation of a record into an empty model',
     MODEL + '::FinalizeLoadingCore': 'deserialisation: initialises every slot before data is loaded',
     VALUES + '::LoadData': 'deserialisation only: restores the saved values verbatim',
@@ -118,11 +121,28 @@ def check(db, rep):
             r1.ok(f.name, 'exempt: ' + EXEMPT_R1[f.name], f.file + ':%d' % f.line, nontrivial=False)
             continue
         fam = [p for p, _ in call_sites(f, is_family_call(f))]
+        # accepted idiom (bulk and name-changing mutators): a loop over a collection of constituents whose body resets dependants, prunes
+        # structures or resets values. Passing the loop statement counts, also with zero iterations (nothing was inserted / nothing
+        # mentions the name); which collection is walked is confirmed by reading: inserted ids, ExpandOutputs of the renamed one, the list.
+        reset_walk = set()          # statements inside a reset walk: a prune / reset there is the reset step, not a new value source
+        for lp in [x for x in f.walk() if x['k'] == 'CXXForRangeStmt']:
+            body_calls = [(c.get('callee') or '') for c in f.calls(f.stmts[lp['body']])]
+            lam_calls = []
+            for c in f.calls(f.stmts[lp['body']]):
+                for lf in db.lambdas_in(f):
+                    if c.get('op') == '()' and lf.name.split('::')[-1].startswith('lambda@'):
+                        lam_calls += [(x.get('callee') or '') for x in lf.calls()]
+            allc = body_calls + lam_calls
+            if any(x == RESET_DEPENDANTS or x == VALUES + '::PruneStructure' for x in allc) or (any(x == VALUES + '::ResetFor' for x in allc) and any(x == CALC + '::ResetFor' for x in allc)):
+                p_ = f.position_of(f.stmts[lp['range']])
+                if p_ is not None:
+                    fam.append(p_)
+                    reset_walk |= {x['id'] for x in f.walk(f.stmts[lp['body']])}
         exits = success_exits(f)
         starts = []
         for n, chain in wsites:
             p = f.position_of(n)
-            if p is not None:
+            if p is not None and n['id'] not in reset_walk:
                 starts.append((p, n, chain))
         # an erasure destroys the edges ResetDependants walks: there the reset must come *before* the change (dominate it)
         destroying = [(s0, n0, c0) for s0, n0, c0 in starts if c0[-1][1].get('callee') in DESTROYERS]
